@@ -36,4 +36,10 @@ CHECKS = {
     "C04": dict(engine=_A, technique="runtime monitoring: cycle-cut monitor over real MGM/MGM2 runs, 1-opt oracle by enumeration",
                 text="Held (except the listed known finding) on the executions observed: whenever a complete cycle leaves a component's assignment unchanged, enumeration over every variable and value finds no strictly improving unilateral change.",
                 note="Same runs and assumptions as C03; thousands of no-move cycles are observed per run (counter nomove_cycles_multi)."),
+    "C05": dict(engine=_A, technique="runtime monitoring: real maxsum/amaxsum computations on generated acyclic factor graphs with a unique optimum, under a deterministic random scheduler; differential re-run classifies the stability cut-off",
+                text="Held (except the listed known finding) on the executions observed: after 4*(diameter+SAME_COUNT+3) synchronous rounds, or asynchronous quiescence, every variable computation holds the unique optimal value (brute force), for min and max, start_messages leafs/leafs_vars/all, stability default and 0.",
+                note="Unique optimum enforced by the generator; damping=0, noise=0; trees/forests <= 7 variables with unary/binary/ternary factors."),
+    "C07": dict(engine=_A, technique="runtime monitoring: finished()/cycle_count monitors on real MGM, MGM2, DSA computations under a deterministic random scheduler with start-order biases",
+                text="Held on the executions observed: every computation reported finished exactly once, at cycle_count == stop_cycle (in start() when it has no neighbour), no handler or constructor raised, and the pool became quiescent with everybody finished inside the step budget.",
+                note="Bounded progress (budget proportional to k * links) stands for 'eventually'; per-channel FIFO; k in 1..10."),
 }
